@@ -715,8 +715,9 @@ def cond_polarity(conds, pred):
 # ------------------------------------------------------------------ what CompilerPassGatherCode.run puts into the program
 class Emission:
     """One statement of GatherCode.run that adds instruction lines to self.code."""
-    def __init__(self, stmt, conds, sources, order):
+    def __init__(self, stmt, conds, sources, order, region=None):
         self.stmt, self.conds, self.sources, self.order = stmt, conds, sources, order
+        self.region = region      # "main" when the statement emits exactly the entry under the key ''
 
     def guard_text(self):
         return [norm(t) + ("" if p else " is False") for t, p in self.conds]
@@ -776,7 +777,13 @@ def gather_model(repo: Repo):
             if calls:
                 order = calls[0]
                 break
-        out.append(Emission(st, conds, sources, order))
+        region = None
+        for a in ast.walk(s2):
+            if isinstance(a, ast.Subscript) and isinstance(a.slice, ast.Constant) and a.slice.value == "" and "functions" in norm(a.value):
+                region = "main"
+        if region == "main" and (sources or order is not None):
+            region = None       # inside a loop: judged by its conditions
+        out.append(Emission(st, conds, sources, order, region))
     return fn, out
 
 
@@ -849,6 +856,8 @@ def emission_table(em: Emission):
         a = dict(zip(names, vals))
         if a["M"] and not a["C"]:
             continue
+        if em.region == "main" and (not a["M"] or a["X"]):
+            continue        # this statement emits the main entry and nothing else (run() has just made it: FunctionData(None, None), is_constexpr False)
         rows.append((a, all(_feval(f, a) for f in fs)))
     return rows, free
 
